@@ -786,7 +786,7 @@ class DateTime(datetime.datetime, Date):
         if unit not in self._MODIFIERS_VALID_UNITS:
             raise ValueError(f'Invalid unit "{unit}" for start_of()')
 
-        return cast("Self", getattr(self, f"_start_of_{unit}")())
+        return self._unit_boundary(unit, f"_start_of_{unit}", 1)
 
     def end_of(self, unit: str) -> Self:
         """
@@ -806,7 +806,32 @@ class DateTime(datetime.datetime, Date):
         if unit not in self._MODIFIERS_VALID_UNITS:
             raise ValueError(f'Invalid unit "{unit}" for end_of()')
 
-        return cast("Self", getattr(self, f"_end_of_{unit}")())
+        return self._unit_boundary(unit, f"_end_of_{unit}", 0)
+
+    def _unit_boundary(self, unit: str, method: str, fold: int) -> Self:
+        """
+        Resolve the first (fold=1) or last (fold=0) wall time of a unit to the
+        first or last instant of the unit, whatever fold the instance carries:
+        a skipped wall time moves into the unit (past the gap for a start,
+        before it for an end) and a repeated one takes its earlier (start)
+        or later (end) occurrence. Within a repeated period, a second, minute
+        or hour stays in the occurrence the instance itself is in.
+        """
+        if self.tzinfo is None or isinstance(self.tzinfo, FixedTimezone):
+            return cast("Self", getattr(self, method)())
+
+        dt = cast("Self", getattr(self.replace(fold=fold), method)())
+        other = dt.replace(fold=1 - fold)
+        if other.utcoffset() == dt.utcoffset() or other.naive() != dt.naive():
+            # Not a repeated wall time
+            return dt
+
+        if unit in ("second", "minute", "hour") and self.fold == fold:
+            twin = self.replace(fold=1 - fold)
+            if twin.utcoffset() != self.utcoffset() and twin.naive() == self.naive():
+                return dt
+
+        return other
 
     def _start_of_second(self) -> Self:
         """
